@@ -153,6 +153,37 @@ impl ToTokens for TraitVisibility<'_> {
                             push_tokens!(stream, syn::token::Super::default());
                         });
                     }
+                    // `pub(self)`, `pub(super)`, `pub(in self::a)`, `pub(in super::a)`: relative to where the attribute is
+                    // written, i.e. one level further out than the module the trait ends up in
+                    syn::Visibility::Restricted(restricted)
+                        if restricted.path.leading_colon.is_none()
+                            && restricted
+                                .path
+                                .segments
+                                .first()
+                                .map(|segment| segment.ident == "self" || segment.ident == "super")
+                                .unwrap_or(false) =>
+                    {
+                        let mut segments = restricted.path.segments.iter();
+                        let first = segments.next().unwrap();
+                        let rest: Vec<_> = segments.collect();
+                        let span = first.ident.span();
+                        push_tokens!(stream, restricted.pub_token);
+                        restricted.paren_token.surround(stream, |stream| {
+                            if first.ident == "self" && rest.is_empty() {
+                                // pub(self) -> pub(super)
+                                push_tokens!(stream, syn::token::Super(span));
+                            } else {
+                                push_tokens!(stream, syn::token::In(span), syn::token::Super(span));
+                                if first.ident == "super" {
+                                    push_tokens!(stream, syn::token::PathSep(span), syn::token::Super(span));
+                                }
+                                for segment in rest {
+                                    push_tokens!(stream, syn::token::PathSep(span), segment);
+                                }
+                            }
+                        });
+                    }
                     _ => {
                         push_tokens!(stream, self.visibility);
                     }
